@@ -134,7 +134,29 @@ CaseSets ==
         <<CaseC(Eq("a"), <<Brk>>), CaseC(None, <<Brk>>), CaseC(Re("a"), <<Esi, Brk>>)>>,
         <<CaseC(Eq("a"), <<Brk>>), CaseC(Re("a"), <<Brk>>), CaseC(ReL("a"), <<Brk>>), CaseC(Eq("A"), <<Brk>>), CaseC(Eq("a "), <<Brk>>)>>,
         <<CaseC(ReL("a"), <<Ft>>), CaseC(Eq("a"), <<Ft>>), CaseC(Re("a"), <<Brk>>)>>}
+\* A case label only has to START with a string literal or with ~ ; after that it is an expression: the string
+\* label is ParseExpression(LOWEST) from the literal on (juxtaposition, explicit +, infix operators, calls, if()),
+\* the regex label is one operand (ParseExpression(PREFIX): literal, long string, identifier, group, if(), call, !x).
+\* Two clauses of the same kind in every switch, so that the duplicate-label check compares them, in both orders,
+\* with default absent / first / between / last.
+EqE(e) == [k |-> "test", op |-> "==", right |-> e]
+ReE(e) == [k |-> "test", op |-> "~", right |-> e]
+StrLabels == {String("a"), Bin("juxt", String("a"), String("b")), Bin("+", String("a"), String("c")), Bin("==", String("d"), String("e")),
+              Bin("juxt", String("a"), CallX("f", <<A>>)), Bin("juxt", String("g"), IfX(A, S, S)), Bin("juxt", String("a"), A),
+              Bin("&&", String("h"), B), Bin("juxt", Bin("juxt", String("a"), String("b")), String("c"))}
+ReLabels == {String("a"), Group(String("x")), IfX(A, S, String("z")), CallX("f", <<A>>), A, LongString("ls"),
+             Group(Bin("juxt", String("x"), A)), Not(A), Group(Group(String("y")))}
+Dflt == CaseC(None, <<Esi, Brk>>)
+WithDefault(c1, c2, pos) == CASE pos = "none" -> <<c1, c2>> [] pos = "first" -> <<Dflt, c1, c2>>
+                              [] pos = "between" -> <<c1, Dflt, c2>> [] pos = "last" -> <<c1, c2, Dflt>>
+DfltPos == {"none", "first", "between", "last"}
+LabelCaseSets ==
+  {WithDefault(CaseC(EqE(l[1]), <<Brk>>), CaseC(EqE(l[2]), <<Esi, Brk>>), pos) : l \in {q \in StrLabels \X StrLabels : q[1] # q[2]}, pos \in DfltPos}
+  \cup {WithDefault(CaseC(ReE(l[1]), <<Ft>>), CaseC(ReE(l[2]), <<Brk>>), pos) : l \in {q \in ReLabels \X ReLabels : q[1] # q[2]}, pos \in DfltPos}
+  \cup {<<CaseC(EqE(s1), <<Brk>>), CaseC(ReE(r1), <<Brk>>), Dflt, CaseC(ReE(Group(String("x"))), <<Ft>>), CaseC(EqE(Bin("juxt", String("a"), String("b"))), <<Brk>>)>> :
+           s1 \in {String("a"), Bin("+", String("a"), String("c"))}, r1 \in {String("a"), IfX(A, S, String("z"))}}
 Switches == {SwitchS(c, cs) : c \in {A, CallX("f", <<A>>), Bool(TRUE), String("s")}, cs \in CaseSets}
+            \cup {SwitchS(A, cs) : cs \in LabelCaseSets}
 \* nesting depth 2: an if / switch inside the arms of an if
 Inners == {IfS(B, Block(<<Esi>>), <<>>, Block(<<>>)), SwitchS(A, <<CaseC(Eq("a"), <<Brk>>)>>), Block(<<LabelS("l:"), GotoS("l")>>)}
 Nested == {IfS(A, Block(<<inner>>), <<Elif("elsif", B, Block(<<inner>>))>>, Block(<<inner, Esi>>)) : inner \in Inners}
